@@ -147,6 +147,14 @@ func checkC15() fw.Check {
 				reqs = append(reqs, c15Req{proto: proto, q: 8, e: 14, failRuns: seq(8), failE2e: seq(14), fetcher: "ok", reach: true, cancelAt: -1})
 				reqs = append(reqs, c15Req{proto: proto, q: 20, e: 0, failRuns: seq(19), fetcher: "none", reach: true, cancelAt: -1})
 			}
+			// far more end-to-end probes than fit into the probing budget one after the other: the launches are 15 ms apart
+			// and every probe listens for its whole timeout, so about forty of them (plus the runs) are in flight at any time
+			reqs = append(reqs, c15Req{proto: "udp", q: 3, e: 200, fetcher: "ok", reach: true, cancelAt: -1})
+			reqs = append(reqs, c15Req{proto: "icmp", q: 2, e: 180, fetcher: "none", reach: seed%2 == 0, cancelAt: -1})
+			if tier == "thorough" {
+				reqs = append(reqs, c15Req{proto: "tcp", q: 3, e: 200, fetcher: "slow", reach: false, cancelAt: -1})
+				reqs = append(reqs, c15Req{proto: "udp", q: 1, e: 240, failE2e: []int{7, 150}, fetcher: "ok", reach: true, cancelAt: -1})
+			}
 			var cases []fw.Case
 			// real clock: a request in which end-to-end probes (and runs) fail must RETURN. If the aggregation blocks -
 			// e.g. a failing participant waits for a lock it already holds - the virtual clock cannot show it (the bubble
